@@ -505,7 +505,9 @@ pub fn run_worker(prop: &Property, tier: Tier, seed: u64, index: usize, workers:
         config.cases = n as u32;
         config.rng_seed = RngSeed::Fixed(pseed);
         config.failure_persistence = None;
-        config.max_shrink_iters = 3000;
+        // free-running parts: a failure is not a function of the case alone, so shrinking would
+        // walk to a smaller case that failed once by luck and reproduces rarely; keep the original
+        config.max_shrink_iters = if matches!(part.name, "stress" | "firstuse") { 0 } else { 3000 };
         config.max_shrink_time = 0;
         config.verbose = 0;
         config.source_file = None;
